@@ -79,6 +79,12 @@ func buildScenarioX(seed int64, small, big bool) *scenario {
 	}
 	if big {
 		n = 24 + g.R.Intn(12)
+		if seed%4 == 1 {
+			n = 42
+		}
+		if seed%4 == 3 {
+			n = 34 + g.R.Intn(8)
+		}
 	}
 	m := model.NewTable()
 	g.Peek = func(k []byte) ([]byte, bool) { v, ok := m.M[string(k)]; return v, ok }
@@ -90,11 +96,40 @@ func buildScenarioX(seed int64, small, big bool) *scenario {
 		if g.R.Intn(3) == 0 {
 			c = &pb.Command{Table: []byte("t"), Type: pb.Command_TXN, Txn: g.Txn(false)}
 		}
-		if big {
+		pairs := big && seed%2 == 0 // template: every apply call = [big blind write, small reading write]
+		if pairs {
+			// both of (about) 1 MiB, a handful of keys overwritten again and again: the growing
+			// memtables (256 KiB ... 16 MiB) rotate at changing positions inside the apply calls
+			sz := 1 << 20
+			if seed%4 == 2 {
+				sz = 1<<20 - 4096 + g.R.Intn(8192)
+			}
+			v := make([]byte, sz)
+			copy(v, fmt.Sprintf("pair-%d", i))
+			if i%2 == 0 {
+				c = &pb.Command{Table: []byte("t"), Type: pb.Command_PUT, Kv: &pb.KeyValue{Key: []byte(fmt.Sprintf("plain-%02d", (i/2)%5)), Value: v}}
+			} else {
+				c = &pb.Command{Table: []byte("t"), Type: pb.Command_PUT, Kv: &pb.KeyValue{Key: []byte(fmt.Sprintf("prev-%02d", (i/2)%5)), Value: v}, PrevKvs: true}
+			}
+		} else if big && seed%4 == 1 {
+			// template: a big write (flushed in the background at once), then a small one that
+			// stays in the memtable while that flush is still running
+			if i%2 == 0 {
+				v := make([]byte, 1<<20+g.R.Intn(1<<20))
+				copy(v, fmt.Sprintf("big-%d", i))
+				c = &pb.Command{Table: []byte("t"), Type: pb.Command_PUT, Kv: &pb.KeyValue{Key: g.Key(), Value: v}}
+			} else {
+				c = &pb.Command{Table: []byte("t"), Type: pb.Command_PUT, Kv: &pb.KeyValue{Key: g.Key(), Value: []byte(fmt.Sprintf("small-%d", i))}}
+			}
+		} else if big && (seed%4 == 3 || g.R.Intn(4) > 0) {
 			v := make([]byte, 1<<20+g.R.Intn(1<<20))
 			copy(v, fmt.Sprintf("big-%d", i))
 			// alternate plain writes and reading writes (prev_kv makes the apply batch indexed)
 			c = &pb.Command{Table: []byte("t"), Type: pb.Command_PUT, Kv: &pb.KeyValue{Key: g.Key(), Value: v}, PrevKvs: i%2 == 1}
+		} else if big {
+			// a small write between the big ones: it goes to the memtable while the flush of the
+			// big write before it is still running in the background
+			c = &pb.Command{Table: []byte("t"), Type: pb.Command_PUT, Kv: &pb.KeyValue{Key: g.Key(), Value: []byte(fmt.Sprintf("small-%d", i))}, PrevKvs: i%2 == 1}
 		}
 		if g.R.Intn(3) == 0 {
 			li += 1 + uint64(g.R.Intn(5))
@@ -110,6 +145,31 @@ func buildScenarioX(seed int64, small, big bool) *scenario {
 	// steps
 	pos := 0
 	didRecover := false
+	if big && seed%2 == 0 {
+		for pos < n {
+			c := 2
+			if c > n-pos {
+				c = n - pos
+			}
+			s.Steps = append(s.Steps, step{Kind: "apply", N: c})
+			pos += c
+			if pos == 2 || g.R.Intn(10) == 0 {
+				s.Steps = append(s.Steps, step{Kind: "sync"})
+			}
+		}
+	}
+	if big && seed%4 == 1 {
+		for pos < n {
+			s.Steps = append(s.Steps, step{Kind: "apply", N: 1})
+			pos++
+			// the engine starts a background flush only once about 8 MiB of memtables and big
+			// batches are queued: several pairs between two syncs, and a sync attempt (after the
+			// store went idle) behind every pair from the fourth on
+			if pos%2 == 0 && (pos/2)%7 >= 4 {
+				s.Steps = append(s.Steps, step{Kind: "idle"}, step{Kind: "sync-if-background-flush-ran"})
+			}
+		}
+	}
 	for pos < n {
 		k := g.R.Intn(10)
 		if big && k >= 6 {
@@ -121,8 +181,8 @@ func buildScenarioX(seed int64, small, big bool) *scenario {
 		switch {
 		case k < 5:
 			c := 1 + g.R.Intn(4)
-			if big && g.R.Intn(3) == 0 {
-				c = 10 + g.R.Intn(5) // one apply call accumulating well over 16 MiB
+			if big && (g.R.Intn(3) == 0 || pos == 0) {
+				c = 12 + g.R.Intn(5) // one apply call accumulating well over 16 MiB
 			}
 			if c > n-pos {
 				c = n - pos
@@ -146,6 +206,17 @@ func buildScenarioX(seed int64, small, big bool) *scenario {
 				didRecover = true
 			}
 		}
+	}
+	if small && seed%3 == 0 && n >= 4 {
+		// template: synced state, then a snapshot recovery (receiver format by seed), then more
+		k1 := 1 + g.R.Intn(n/2)
+		at := k1 + 1 + g.R.Intn(n-k1-1)
+		s.Steps = []step{{Kind: "apply", N: k1}, {Kind: "sync"}, {Kind: "recover", At: at, SaveFmt: fsm.SnapshotRecoveryType(g.R.Intn(2))}}
+		if n-at > 0 {
+			s.Steps = append(s.Steps, step{Kind: "apply", N: n - at})
+		}
+		s.RecvFmt = fsm.SnapshotRecoveryType((seed / 3) % 2)
+		didRecover = true
 	}
 	if g.R.Intn(2) == 0 {
 		s.Steps = append(s.Steps, step{Kind: "sync"})
@@ -208,6 +279,15 @@ type outcome struct {
 func execute(s *scenario, k int) *outcome {
 	fs := crashfs.New(fsmx.BaseDir)
 	fs.CrashAt(k)
+	if s.Big && s.Seed%4 == 1 {
+		// a slow device for table files: background flushes take a few milliseconds longer, the
+		// apply path (which does not touch the file system) runs ahead of them
+		fs.SetDelay(func(op crashfs.Op) {
+			if op.Kind == "create" && op.Class == "sst" {
+				time.Sleep(4 * time.Millisecond)
+			}
+		})
+	}
 	o := &outcome{fs: fs}
 	fail := func(where string, err error) *outcome {
 		if !fs.Crashed() {
@@ -224,6 +304,7 @@ func execute(s *scenario, k int) *outcome {
 	pos := 0
 	var cur uint64
 	closed := false
+	opsAtLastSync := fs.Ops()
 	for i, st := range s.Steps {
 		switch st.Kind {
 		case "apply":
@@ -244,6 +325,13 @@ func execute(s *scenario, k int) *outcome {
 					}
 				}
 			}
+		case "sync-if-background-flush-ran":
+			// (decided from the operation counter: the apply path itself performs no file-system
+			// operation, so operations since the last sync mean the engine flushed on its own)
+			if fs.Ops() == opsAtLastSync {
+				continue
+			}
+			fallthrough
 		case "sync":
 			fs.SetPhase("sync")
 			err := t.SM.Sync()
@@ -253,6 +341,7 @@ func execute(s *scenario, k int) *outcome {
 			if !fs.Crashed() {
 				o.promised = cur
 			}
+			opsAtLastSync = fs.Ops()
 		case "reopen":
 			fs.SetPhase("close")
 			if err := t.Close(); err != nil {
@@ -448,7 +537,7 @@ func main() {
 	var jobs []job
 	nSmall, nBig := r.Pick(14, 150), r.Pick(8, 250)
 	perBig := r.Pick(60, 150)
-	nHuge := r.Pick(3, 24)
+	nHuge := r.Pick(12, 48)
 	for i := 0; i < nSmall+nBig+nHuge; i++ {
 		small := i < nSmall
 		s := buildScenarioX(r.Seed*1_000_003+int64(i), small, i >= nSmall+nBig)
